@@ -59,6 +59,18 @@ def cond_tail(**k):
               cond={"C": {"a": 0.5, "b": 0.5}}, terminal=["J"], **k)]
 
 
+def cond_series(**k):
+    return [G("G0", ["C", "a", "b", "J", "D", "c", "d", "K"],
+              [("C", "a"), ("C", "b"), ("a", "J"), ("b", "J"), ("J", "D"), ("D", "c"), ("D", "d"), ("c", "K"), ("d", "K")],
+              cond={"C": {"a": 0.5, "b": 0.5}, "D": {"c": 0.5, "d": 0.5}}, terminal=["J", "K"], **k)]
+
+
+def cond_nested(**k):
+    return [G("G0", ["C", "a", "D", "c", "d", "K", "J"],
+              [("C", "a"), ("C", "D"), ("D", "c"), ("D", "d"), ("c", "K"), ("d", "K"), ("K", "J"), ("a", "J")],
+              cond={"C": {"a": 0.5, "D": 0.5}, "D": {"c": 0.5, "d": 0.5}}, terminal=["J", "K"], **k)]
+
+
 C1 = [[{"CPU": 1}]]
 C2 = [[{"CPU": 2}]]
 C1X2 = [[{"CPU": 1}, {"CPU": 1}]]
